@@ -26,7 +26,7 @@ from mc.ref import crosscheck as X
 
 ID = "C07"
 LEVEL = "exploration"
-BUDGET = {"quick": 120, "thorough": 900}
+BUDGET = {"quick": 300, "thorough": 900}
 CHUNK = 4
 RULE = (
     "cases = blocks of row pairs: for every left row index i a stack of ALL right rows k, paired with left row "
@@ -130,6 +130,11 @@ def spaces(tier, seed):
     lvl1 = itertools.chain.from_iterable(stack_cases(a1, 3, config_of([d]), seed) for d in departures())
     sp.append({"name": f"level 1: one departure (validity pixel | threshold | interval | offset | bands), width 3 "
                        f"over {a1}", "level": 1, "cases": lvl1, "chunk": 16 if tier == "quick" else 4})
+    primed = itertools.chain.from_iterable(
+        stack_cases(a1, 3, dict(config_of([]), interval=itv, primed=True), seed)
+        for itv in ([0, 2], [-2, -1], [-1, 2], [-2, 0]))
+    sp.append({"name": f"level 1: step object reused (first call on the mirrored problem), asymmetric intervals, width 3 "
+                       f"over {a1}", "level": 1, "cases": primed, "chunk": 16 if tier == "quick" else 4})
     sp.append({"name": "level 1: machine-level binding, pipelines ending with validation (left and right maps)",
                "level": 1, "cases": machine_cases(tier, seed), "chunk": 1})
     if tier == "thorough":
@@ -328,7 +333,8 @@ def _sigs(cfgkey, m):
 
 
 def _cfgkey(case):
-    return f"w{case['w']}|fl{case.get('fl')}|t{case['thr']}|i{case['interval']}|o{case['off']}|c{case['conf']}"
+    return (f"w{case['w']}|fl{case.get('fl')}|t{case['thr']}|i{case['interval']}|o{case['off']}|c{case['conf']}"
+            + ("|primed" if case.get("primed") else ""))
 
 
 def _run_map(case, dl, dr, fl, fr):
@@ -336,8 +342,11 @@ def _run_map(case, dl, dr, fl, fr):
     thr = case["thr"]
     given = thr != "default"
     thr_val = 1.0 if not given else thr
-    res = VS.cross_check(dl, dr, fl, fr, thr=thr_val, interval=case["interval"], offset=case["off"],
-                         conf=case["conf"], thr_given=given)
+    if case.get("primed"):
+        res = _cross_check_primed(dl, dr, fl, fr, thr_val, case["interval"], case["off"])
+    else:
+        res = VS.cross_check(dl, dr, fl, fr, thr=thr_val, interval=case["interval"], offset=case["off"],
+                             conf=case["conf"], thr_given=given)
     viol = []
     if res["error"] is not None:
         viol.append({"clause": "totality", "key": f"C07/totality/disparity_checking/{type(res['error']).__name__}",
@@ -349,6 +358,30 @@ def _run_map(case, dl, dr, fl, fr):
     v, m, _ = judge(res["out"]["validity_mask"].data, conf, dl, dr, fl, float(thr_val), case["interval"][0],
                     case["interval"][1], case["off"])
     return viol + v, m
+
+
+def _cross_check_primed(dl, dr, fl, fr, thr, interval, offset):
+    """
+    the step object is used twice, as PandoraMachine.validation_run does (left against right, then right against
+    left with the mirrored interval): the map under test goes through the SECOND call of the same object, the first
+    call having seen the mirrored problem.  The result must not depend on what the object did before.
+    """
+    from pandora import validation  # pylint: disable=import-outside-toplevel
+
+    dl = np.asarray(dl, dtype=np.float32)
+    dr = np.asarray(dr, dtype=np.float32)
+    window = 1 + 2 * offset
+    left = D.disparity(dl, validity=fl, interval=[interval[0], interval[1]], window_size=window)
+    right = D.disparity(dr, validity=fr, interval=[-interval[1], -interval[0]], window_size=window)
+    res = {"left": left, "right": right, "left_before": left.copy(deep=True), "right_before": right.copy(deep=True),
+           "out": None, "error": None}
+    try:
+        step = validation.AbstractValidation(validation_method="cross_checking_accurate", cross_checking_threshold=thr)
+        step.disparity_checking(right.copy(deep=True), left.copy(deep=True))  # first use: the mirrored problem
+        res["out"] = step.disparity_checking(left, right)
+    except Exception as e:  # pylint: disable=broad-except
+        res["error"] = e
+    return res
 
 
 def run_case(case):
